@@ -4,6 +4,8 @@ package main
 
 import (
 	"fmt"
+	"go/constant"
+	"go/token"
 	"go/types"
 	"sort"
 	"strings"
@@ -380,6 +382,58 @@ func (ex *Exec) enterLoop(fr *Frame, li *loopInfo, ins []edgeIn) (*State, *Term)
 			hover[phi.Comment] = &CVal{T: t, Typ: phi.Type()}
 		}
 		ex.noteLoaded(t, phi.Type(), hst, entryReach)
+		// syntactic monotonicity: phi' = phi + c on every back edge  ==>  phi >= (<=) its entry value
+		if t.S == SInt {
+			dir := 0
+			okMono := true
+			var entryVals []*Term
+			for pi, e := range phi.Edges {
+				pred := b.Preds[pi]
+				if li.body[pred] && b.Dominates(pred) {
+					bo, ok := e.(*ssa.BinOp)
+					if !ok || bo.X != ssa.Value(phi) {
+						okMono = false
+						break
+					}
+					c, ok := bo.Y.(*ssa.Const)
+					if !ok || c.Value == nil {
+						okMono = false
+						break
+					}
+					cv, exact := constInt64(c)
+					if !exact {
+						okMono = false
+						break
+					}
+					d := 0
+					switch {
+					case bo.Op == token.ADD && cv > 0, bo.Op == token.SUB && cv < 0:
+						d = 1
+					case bo.Op == token.ADD && cv < 0, bo.Op == token.SUB && cv > 0:
+						d = -1
+					default:
+						okMono = false
+					}
+					if dir != 0 && d != dir {
+						okMono = false
+					}
+					dir = d
+				} else {
+					entryVals = append(entryVals, ex.termOf(ex.value(fr, e)))
+				}
+			}
+			if okMono && dir != 0 {
+				for _, ev := range entryVals {
+					if len(entryVals) == 1 {
+						if dir > 0 {
+							ex.assume(Implies(entryReach, Ge(t, ev)))
+						} else {
+							ex.assume(Implies(entryReach, Le(t, ev)))
+						}
+					}
+				}
+			}
+		}
 	}
 	for _, cl := range invs {
 		env := ex.loopEnv(fr, hst, hover, entryReach)
@@ -996,4 +1050,11 @@ func (ex *Exec) builtin(fr *Frame, x *ssa.Call, name string, args []*Val, st *St
 func (ex *Exec) mapHasRow(t types.Type, m *Term, st *State) *Term {
 	hc, hs, _, _ := ex.V.mapComps(t.Underlying().(*types.Map))
 	return Select(ex.heapGet(st, hc, hs), m)
+}
+
+func constInt64(c *ssa.Const) (int64, bool) {
+	if c.Value == nil || c.Value.Kind() != constant.Int {
+		return 0, false
+	}
+	return constant.Int64Val(c.Value)
 }
